@@ -69,7 +69,7 @@ def new_scratch(prefix="verif-tlc-"):
 
 def run_tlc(module, cfg, *, workers=1, timeout=900, files=None, env=None, heap="3g",
             simulate=None, depth=None, seed=None, coverage=False, deque=False,
-            keep=False, dfid=None, allow_violation=False):
+            keep=False, dfid=None, allow_violation=False, full_jit=False):
     """Run TLC on `module` (name without .tla) with configuration text `cfg`.
 
     files: {name: text} extra files (generated modules, trace JSON) put next to the spec.
@@ -85,7 +85,12 @@ def run_tlc(module, cfg, *, workers=1, timeout=900, files=None, env=None, heap="
         for name, text in (files or {}).items():
             with open(os.path.join(d, name), "w") as fh:
                 fh.write(text)
-        jopts = ["-XX:+UseParallelGC", "-XX:ParallelGCThreads=%d" % max(2, min(8, workers)), "-Xmx" + heap, "-Xss16m"]
+        if workers == 1 and not full_jit:
+            # many short single-worker JVMs side by side: C1 only and serial GC avoid the
+            # compiler/GC thread storm (measured: 3x less CPU for runs of a few seconds)
+            jopts = ["-XX:+UseSerialGC", "-XX:TieredStopAtLevel=1", "-Xms128m", "-Xmx" + heap, "-Xss16m"]
+        else:
+            jopts = ["-XX:+UseParallelGC", "-XX:ParallelGCThreads=%d" % max(2, min(8, workers)), "-Xmx" + heap, "-Xss16m"]
         if deque:
             jopts.append("-Dtlc2.tool.queue.IStateQueue=StateDeque")
         cmd = ["java"] + jopts + ["-cp", JAR + ":" + DEPS, "tlc2.TLC",
